@@ -18,6 +18,23 @@ KEYWORDS = ['if', 'for', 'let', 'some', 'every', 'instance', 'cast', 'castable',
             'descendant', 'ancestor', 'following', 'preceding', 'namespace', 'typeswitch', 'switch', 'xml-stylesheet', 'Q', 'true', 'false', 'last', 'position', 'path']
 ODD_URIS = ["urn:it's", 'urn:a&b', 'http://x/?a=1#f', 'urn:a(b)', 'urn:a,b;c=d', 'urn:a%20b*c', 'urn:a@c$d+e!f~g']
 NSARGS = [None, {'': G.U0, 'p': G.U1, 'zz': 'urn:zz'}]
+# (namespaces argument of the context, parser with a default element namespace, label)
+NSDIMS = [(None, False, ''), (NSARGS[1], False, '+namespaces-argument'),
+          ({'xml': 'http://www.w3.org/XML/1998/namespace', 'p': G.U1}, False, '+xml-prefix-in-namespaces-argument'),
+          (None, True, '+parser-default-namespace')]
+_DPARSERS = {}
+
+
+def parser(ver, dflt):
+    """the parser that evaluates fn:path and the returned path; dflt: with a default element namespace, which a
+    'Q{}name' step of a returned path must not pick up"""
+    if not dflt:
+        return B.parser(ver, False)
+    if ver not in _DPARSERS:
+        from elementpath.xpath30 import XPath30Parser
+        from elementpath.xpath31 import XPath31Parser
+        _DPARSERS[ver] = {'3.0': XPath30Parser, '3.1': XPath31Parser}[ver](namespaces={'': G.U0, 'p': G.U1})
+    return _DPARSERS[ver]
 ROOTKINDS = [('hidden', 'elem', None), ('fragment', 'elem', True), ('document', 'doc', None), ('document', 'elem', False)]
 
 
@@ -77,10 +94,9 @@ def run_tree(tid, desc, acc, tier):
         if is_doc and lib != 'lxml':
             continue
         mat = G.materialize(desc, lib)
-        for (rk, what, frag), nsarg in [(r, a) for r in ROOTKINDS for a in NSARGS]:
+        for (rk, what, frag), (nsarg, dflt, label) in [(r, a) for r in ROOTKINDS for a in NSDIMS]:
             root_obj = mat.root if what == 'elem' else mat.doc
-            if nsarg is not None:
-                rk = rk + '+namespaces-argument'
+            rk = rk + label
             try:
                 ctx0 = XPathContext(root=root_obj, fragment=frag, namespaces=nsarg)
             except Exception as e:  # noqa
@@ -106,7 +122,7 @@ def run_tree(tid, desc, acc, tier):
                         c2 = dict(case, ver=ver, source=source, ref=list(ref))
                         try:
                             if source == 'fn:path':
-                                p = B.parser(ver, False).parse('path(.)').evaluate(XPathContext(root=root, item=n, fragment=frag, namespaces=nsarg))
+                                p = parser(ver, dflt).parse('path(.)').evaluate(XPathContext(root=root, item=n, fragment=frag, namespaces=nsarg))
                             else:
                                 p = n.path
                             acc.ev()
@@ -129,7 +145,7 @@ def run_tree(tid, desc, acc, tier):
                             seen_paths[p] = ref
                         # evaluate the path back
                         try:
-                            back = list(B.parser(ver, False).parse(p).select(XPathContext(root=root, fragment=frag, namespaces=nsarg)))
+                            back = list(parser(ver, dflt).parse(p).select(XPathContext(root=root, fragment=frag, namespaces=nsarg)))
                             acc.ev()
                             got = [B.impl_ref(x, mat, cache) if hasattr(x, 'position') else ('atomic', repr(x)) for x in back]
                         except ElementPathError as e:
